@@ -265,6 +265,22 @@ def run_case(case, ctx, st):
     ctx.count("contracts_complete")
     ctx.distinct(name, params, X.tobytes().hex()[:48], form)
     ctx.sample({"estimator": name, "params": params, "n": n, "d": d, "form": form, "labels": labels[:10]})
+    # the one recorded mechanism behind non-finite models (finding of C17, same classifier): plain gradient descent on the
+    # quadratic penalty of RIM / KernelRIM with a step beyond the stability limit lr * 2 * reg * lambda_max > 2
+    diverging_quadratic = False
+    if bad and name in ("RIM", "KernelRIM") and params.get("solver") == "sgd" and params.get("reg", 0) > 0 \
+            and any("finite" in w or "probabilit" in w for w, _ in bad):
+        lam = 1.0
+        if name == "KernelRIM":
+            from sklearn.metrics import pairwise_kernels
+            bk, bp = params.get("base_kernel", "linear"), params.get("base_kernel_params") or {}
+            Kt = gen.CALLABLES[bk["callable"]](X, X) if isinstance(bk, dict) else pairwise_kernels(X, X, metric=bk, **bp)
+            lam = float(np.max(np.abs(np.linalg.eigvalsh((Kt + Kt.T) / 2))))
+        diverging_quadratic = params["learning_rate"] * 2 * params["reg"] * lam > 2
+    if diverging_quadratic:
+        ctx.violation("post-fit-contract", "sgd-step-beyond-stability-of-l2-penalty",
+                      observed={"what": [w for w, _ in bad[:3]], "estimator": name, "params": params, "n": n}, expected="finite model")
+        return
     for what, obs in bad[:3]:
         ctx.violation("post-fit-contract", f"{what}/{name}", observed={"detail": obs, "params": params, "n": n, "form": form},
                       expected=what)
